@@ -1,5 +1,5 @@
 """Line-protocol client for the compiled Lean model driver (lean/.lake/build/bin/nmfumodel)."""
-import os, subprocess
+import os, subprocess, select
 
 VERIF = os.path.dirname(os.path.dirname(os.path.abspath(__file__)))
 EXE = os.path.join(VERIF, "lean", ".lake", "build", "bin", "nmfumodel")
@@ -7,17 +7,30 @@ EXE = os.path.join(VERIF, "lean", ".lake", "build", "bin", "nmfumodel")
 
 class Model:
     def __init__(self):
-        self.p = subprocess.Popen([EXE], stdin=subprocess.PIPE, stdout=subprocess.PIPE, text=True, bufsize=1)
+        self._start()
 
-    def ask(self, *fields):
+    def _start(self):
+        self.p = subprocess.Popen([EXE], stdin=subprocess.PIPE, stdout=subprocess.PIPE, bufsize=0)
+
+    def ask(self, *fields, timeout=None):
         line = "|".join(str(f) for f in fields)
         assert "\n" not in line
-        self.p.stdin.write(line + "\n")
+        self.p.stdin.write((line + "\n").encode())
         self.p.stdin.flush()
-        out = self.p.stdout.readline()
-        if not out:
-            raise RuntimeError("model driver died on: " + line[:200])
-        return out.rstrip("\n")
+        buf = b""
+        while not buf.endswith(b"\n"):
+            if timeout is not None:
+                r, _, _ = select.select([self.p.stdout], [], [], timeout)
+                if not r:
+                    self.p.kill()
+                    self.p.wait()
+                    self._start()
+                    return "timeout"
+            chunk = os.read(self.p.stdout.fileno(), 65536)
+            if not chunk:
+                raise RuntimeError("model driver died on: " + line[:200])
+            buf += chunk
+        return buf.decode().rstrip("\n")
 
     def close(self):
         try:
